@@ -162,6 +162,12 @@ def c09(mir, lit_written=None):
         for k, _ in f["operations"]:
             if k not in fr:
                 v.append(("dead-op", f"function {f['function']} holds operation {k} unreachable from its return operation"))
+        # ... and everything reachable is there: an operand that an operation of the table names is an operation of the table
+        for k, op in f["operations"]:
+            for c in refs(op):
+                if c not in ftbl:
+                    v.append(("missing-op", f"function {f['function']}: operation {k} uses operation {c}, which is reachable from the return "
+                                            f"operation but not in the function's table"))
     for i in set(ids):
         if ids.count(i) > 1:
             v.append(("dup-fn", f"function id {i} is listed {ids.count(i)} times"))
